@@ -97,21 +97,24 @@ func urlsFor(r *core.Rand, t *rt.Table, n int) []string {
 // c17: Allow headers tell the truth about which methods are routable.
 func c17(ctx *core.Ctx) {
 	quietLogs()
-	ctx.Rule("tables on the fragment both matching engines support (nested literal roots, literal and {v} segments, Consumes/Produces, no conditions), both routers. For each URL u: S(u) = methods in {GET,POST,PUT,DELETE,PATCH,HEAD} whose probe on a filter-less twin is not 404/405. Oracle: every 405's Allow set == S(u) (also for OPTIONS and an unknown method); with OPTIONSFilter installed OPTIONS u gives Allow == Access-Control-Allow-Methods == S(u), runs no route function, and every other probe equals the twin's answer. Non-trivial = a URL with non-empty S(u); distinct by (router, |S(u)|, number of matching roots, trailing slash).")
+	ctx.Rule("tables on the fragment both matching engines support (nested literal roots, literal and {v} segments, Consumes/Produces, no conditions), both routers. For each URL u: S(u) = methods in {GET,POST,PUT,DELETE,PATCH,HEAD,LOCK,UNLOCK,FIND,PROPFIND,GE} whose probe on a filter-less twin is not 404/405. Oracle: every 405's Allow set == S(u) (also for OPTIONS and an unknown method); with OPTIONSFilter installed OPTIONS u gives Allow == Access-Control-Allow-Methods == S(u), runs no route function, and every other probe equals the twin's answer. Non-trivial = a URL with non-empty S(u); distinct by (router, |S(u)|, number of matching roots, trailing slash).")
 	ctx.Assume("OPTIONS itself is outside the compared universe (removed from both sides): the filter answers it by construction", "every 3rd table has explicit OPTIONS routes; every 3rd table has routes added/removed on registered WebServices between three probe passes")
-	tables := ctx.N(2500, 150000)
+	tables := ctx.N(1800, 150000)
 	perTable := ctx.N(25, 50)
 	if !ctx.Quick() {
 		perTable = 50
 	}
-	universe := rt.Methods
+	// the compared universe: the six usual methods and the extension methods the generator may bind routes to
+	universe := append(append([]string{}, rt.Methods...), "LOCK", "UNLOCK", "FIND", "PROPFIND", "GE")
 	for ti := 0; ti < tables; ti++ {
 		if ctx.Skip(ti) {
 			continue
 		}
 		router := routerOf(ti)
 		r := ctx.Rand(ti, "table")
-		t := rt.GenTable(r, commonGenOpts())
+		go17 := commonGenOpts()
+		go17.OddMethods = true
+		t := rt.GenTable(r, go17)
 		ctx.Case(ti, "router="+router+" table="+core.JSON(t))
 		// every 3rd table: explicit OPTIONS routes; every 3rd: routes change between two probe passes
 		if ti%3 == 1 {
@@ -289,6 +292,15 @@ func c18(ctx *core.Ctx) {
 		}
 		cs[0] = rt.Build(t, ba)
 		cs[1] = rt.Build(t, bb)
+		for _, c := range cs {
+			// application code may write into the parameter map it is handed; both routers must hand out a map of the request's own
+			c.Filter(func(req *restful.Request, resp *restful.Response, chain *restful.FilterChain) {
+				if pp := req.PathParameters(); pp != nil {
+					pp["w-"+req.Request.Header.Get("X-Req")] = "1"
+				}
+				chain.ProcessFilter(req, resp)
+			})
+		}
 		rr := ctx.Rand(ti, "req")
 		var reqs []rt.Req
 		var seqA, seqB []string
@@ -297,6 +309,10 @@ func c18(ctx *core.Ctx) {
 			if _, clean := rt.Tokens(req.Path); !clean {
 				continue
 			}
+			if req.Hdr == nil {
+				req.Hdr = map[string]string{}
+			}
+			req.Hdr["X-Req"] = fmt.Sprintf("%d-%d", ti, qi)
 			reqs = append(reqs, req)
 			seqA = append(seqA, "")
 			seqB = append(seqB, "")
